@@ -1,49 +1,92 @@
 #!/usr/bin/env python3
-"""Confirm a seeded change and run the check(s) against it.
+"""Confirm a seeded change against the *current* /repo main and run the check(s) against it.
 
-usage: tools/seedtest.py <worktree> <property id> [extra check ids...]
-The worktree (outside /repo and /verif) holds out/<id>/{patch.diff, demo.sh, meta.json, …} and delta.orig.
-Steps: apply patch in the worktree; build; demo passes on delta.orig and fails on the changed binary;
-`cargo test --offline` passes; copy artefacts to /verif/seeded/<id>/; run ./check with VERIF_REPO=<worktree>;
-undo the patch; remove the scratch build dirs. Appends a result line to seeded/results.jsonl.
+usage: tools/seedtest.py <dir with patch.diff, demo.sh, meta.json> <property id> [extra check ids...] [--name <suffix>]
+A scratch worktree of /repo at HEAD (/tmp/seed-wt, outside /repo and /verif; created on demand, reused, removed by
+`tools/seedtest.py --cleanup`) receives the patch (3-way if the author's base was older).
+Steps: build HEAD -> delta.orig; apply patch; build; demo passes on delta.orig and fails on the changed binary;
+`cargo test --offline` passes; copy artefacts to /verif/seeded/<id>-<suffix>/; run ./check with VERIF_REPO=<worktree>
+(evidence of such runs goes to .build/evidence-scratch, never to evidence/); undo the patch.
+Appends a result line to seeded/results.jsonl.
 """
 import hashlib, json, os, re, shutil, subprocess, sys, time
 ROOT = os.path.dirname(os.path.dirname(os.path.abspath(__file__)))
-wt, pid, extra = sys.argv[1], sys.argv[2], sys.argv[3:]
-src = os.path.join(wt, "out", pid)
+WT = os.environ.get("SEED_WT", "/tmp/seed-wt")
+
+
 def sh(cmd, **kw):
     return subprocess.run(cmd, shell=True, capture_output=True, text=True, **kw)
-res = dict(property=pid, worktree=wt, at=time.strftime("%H:%M"))
-sh("git checkout -- .", cwd=wt)
-a = sh(f"git apply {src}/patch.diff", cwd=wt)
+
+
+def cleanup():
+    sh(f"git -C /repo worktree remove --force {WT}")
+    h = hashlib.sha256(os.path.realpath(WT).encode()).hexdigest()[:10]
+    for d in (f"target-{h}", f"lean-{h}"):
+        shutil.rmtree(os.path.join(ROOT, ".build", d), ignore_errors=True)
+    shutil.rmtree(WT, ignore_errors=True)
+
+
+if sys.argv[1] == "--cleanup":
+    cleanup(); sys.exit(0)
+args = sys.argv[1:]
+name = None
+if "--name" in args:
+    i = args.index("--name"); name = args[i + 1]; del args[i:i + 2]
+src, pid, extra = os.path.abspath(args[0]), args[1], args[2:]
+name = name or os.path.basename(os.path.dirname(os.path.dirname(src)))
+head = sh("git -C /repo rev-parse HEAD").stdout.strip()
+if not os.path.isdir(WT):
+    r = sh(f"git -C /repo worktree add --detach {WT} {head}")
+    assert r.returncode == 0, r.stderr
+sh("git checkout -q -- . && git clean -fdq -e target -e delta.orig", cwd=WT)
+sh(f"git checkout -q --detach {head}", cwd=WT)
+res = dict(property=pid, source=src, base=head[:7], at=time.strftime("%H:%M"))
+b0 = sh("cargo build --offline 2>&1 | tail -2", cwd=WT)
+assert "Finished" in b0.stdout, b0.stdout
+orig = os.path.join(WT, "delta.orig")
+shutil.copy(os.path.join(WT, "target/debug/delta"), orig)
+a = sh(f"git apply {src}/patch.diff", cwd=WT)
+if a.returncode != 0:
+    a = sh(f"git apply -3 {src}/patch.diff && git reset -q", cwd=WT)
+    res["three_way"] = True
 res["applies"] = a.returncode == 0
-b = sh("cargo build --offline 2>&1 | tail -2", cwd=wt)
+b = sh("cargo build --offline 2>&1 | tail -2", cwd=WT)
 res["builds"] = "Finished" in b.stdout
-orig = os.path.join(wt, "delta.orig")
 d0 = sh(f"sh {src}/demo.sh {orig}", cwd=src)
-d1 = sh(f"sh {src}/demo.sh {wt}/target/debug/delta", cwd=src)
+d1 = sh(f"sh {src}/demo.sh {WT}/target/debug/delta", cwd=src)
 res["demo_orig_rc"], res["demo_changed_rc"] = d0.returncode, d1.returncode
-t = sh("cargo test --offline 2>&1 | grep -E '^test result' | head -3", cwd=wt)
+t = sh("cargo test --offline 2>&1 | grep -E '^test result' | head -3", cwd=WT)
 res["tests"] = t.stdout.strip().replace("\n", " | ")[:200]
-ok = res["applies"] and res["builds"] and d0.returncode == 0 and d1.returncode != 0 and "0 failed" in res["tests"]
+ok = res["applies"] and res["builds"] and d0.returncode == 0 and d1.returncode != 0 and "0 failed" in res["tests"] and "passed" in res["tests"]
 res["confirmed"] = ok
 if ok:
-    dst = os.path.join(ROOT, "seeded", pid + "-" + os.path.basename(wt))
+    dst = os.path.join(ROOT, "seeded", pid + "-" + name)
     os.makedirs(dst, exist_ok=True)
     for f in os.listdir(src):
         if f not in ("delta.changed",) and os.path.isfile(os.path.join(src, f)) and os.path.getsize(os.path.join(src, f)) < 2_000_000:
             shutil.copy(os.path.join(src, f), dst)
+    # the patch as it applies to the current main
+    with open(os.path.join(dst, "patch.diff"), "w") as f:
+        f.write(sh("git diff", cwd=WT).stdout)
     res["stored"] = os.path.relpath(dst, ROOT)
     checks = {}
     for c in [pid] + extra:
         p = subprocess.run(["./check", c, "--tier", "quick"], cwd=ROOT, capture_output=True, text=True,
-                           env=dict(os.environ, VERIF_REPO=wt))
+                           env=dict(os.environ, VERIF_REPO=WT))
         lines = [l for l in p.stdout.split("\n") if l.startswith("VIOLATION") or l.startswith("[" + c)]
         nf = sum(1 for l in lines if l.startswith("VIOLATION") and l.endswith("no-failing-input-found"))
         conc = sum(1 for l in lines if l.startswith("VIOLATION") and not l.endswith("no-failing-input-found"))
-        checks[c] = dict(rc=p.returncode, violations_with_replay=conc, violations_no_input=nf,
-                         summary=(lines[-1][:300] if lines else p.stdout[-300:]))
-        # keep one replay for the record
+        sigs = []
+        for m in re.finditer(r"replay=(\S+)", p.stdout):
+            try:
+                o = json.load(open(m.group(1)))
+                sigs.append(o.get("signature") or ("tie-broken: " + "; ".join(
+                    [str(x)[:120] for x in o.get("broken_theorems", [])] +
+                    [x.get("op", "?") for x in o.get("broken_correspondence", [])][:4])))
+            except Exception:
+                pass
+        checks[c] = dict(rc=p.returncode, violations_with_replay=conc, violations_no_input=nf, signatures=sigs[:6],
+                         summary=(lines[-1][:300] if lines else (p.stdout + p.stderr)[-300:]))
         m = re.search(r"replay=(\S+)", p.stdout)
         if m and os.path.exists(m.group(1)) and os.path.getsize(m.group(1)) < 200000:
             shutil.copy(m.group(1), os.path.join(dst, "replay-" + c + ".json"))
@@ -53,13 +96,10 @@ if ok:
         meta = json.load(open(os.path.join(dst, "meta.json")))
     except Exception:
         pass
-    meta["verif_confirmation"] = {k: res[k] for k in ("applies", "builds", "demo_orig_rc", "demo_changed_rc", "tests")}
+    meta["verif_confirmation"] = {k: res[k] for k in ("base", "applies", "builds", "demo_orig_rc", "demo_changed_rc", "tests")}
     meta["verif_checks"] = checks
     json.dump(meta, open(os.path.join(dst, "meta.json"), "w"), indent=1)
-sh("git checkout -- .", cwd=wt)
-h = hashlib.sha256(os.path.realpath(wt).encode()).hexdigest()[:10]
-for d in (f"target-{h}", f"lean-{h}"):
-    shutil.rmtree(os.path.join(ROOT, ".build", d), ignore_errors=True)
+sh("git checkout -q -- . && git clean -fdq -e target -e delta.orig", cwd=WT)
 with open(os.path.join(ROOT, "seeded", "results.jsonl"), "a") as f:
     f.write(json.dumps(res) + "\n")
-print(json.dumps(res, indent=1)[:1500])
+print(json.dumps(res, indent=1)[:2500])
